@@ -214,6 +214,7 @@ Variable orc : okind -> str -> option Z.
 Variable orcq : str -> option Q.
 Variable reg : list entry.
 Variable lz : bool.
+Variable uq : bool.
 
 Notation D := (decode env prop orc orcq reg lz).
 
@@ -287,7 +288,7 @@ Proof. intro H. exact (H 1%nat CNil). Qed.
 (* Error propagation: when the decoding problem met at a path fails (whatever the current value and the
    fuel), the decoding of the whole tree fails. *)
 Theorem propagate : forall p tags s cur v s' tags' cur' x,
-  reach reg lz p tags s cur v = Some (s', tags', cur', x) ->
+  reach reg lz uq p tags s cur v = Some (s', tags', cur', x) ->
   (forall F c, notok (D F s' c x)) ->
   forall F c, notok (D F s c v).
 Proof.
@@ -297,7 +298,8 @@ Proof.
     + destruct s; try discriminate.
       * (* struct *)
         destruct v; try discriminate.
-        destruct (unique_key k kvs) eqn:Hu; try discriminate.
+        destruct (unique_key k kvs && field_ok uq k (flat_fields (SStruct nullable fs))) eqn:Hu0; try discriminate.
+        apply andb_true_iff in Hu0. destruct Hu0 as [Hu _].
         destruct (find_exact k kvs) as [[k0 x0]|] eqn:He; try discriminate.
         destruct (nth_field k (flat_fields (SStruct nullable fs)) (struct_cur (SStruct nullable fs) cur)) as [[f c0]|] eqn:Hf; try discriminate.
         eapply struct_step; eauto using nth_field_find.
@@ -317,7 +319,8 @@ Proof.
         destruct (plugin_entry reg iface kvs) as [e|] eqn:Hp; try discriminate.
         destruct (find_exact k kvs) as [[k0 x0]|] eqn:He; try discriminate.
         destruct (e_conf e) as [[cs d]|] eqn:Hc; try discriminate.
-        destruct (entry_lazy lz fk e) eqn:Hl; try discriminate.
+        destruct (entry_lazy lz fk e || negb (field_ok uq k (flat_fields cs))) eqn:Hl0; try discriminate.
+        apply orb_false_iff in Hl0. destruct Hl0 as [Hl _].
         destruct (nth_field k (flat_fields cs) (struct_cur cs d)) as [[f c0]|] eqn:Hf; try discriminate.
         eapply plugin_step; eauto using nth_field_find.
     + destruct s; try discriminate.
@@ -332,7 +335,8 @@ Proof.
         destruct (str_eqb iface i_schedule) eqn:Hs; try discriminate.
         destruct (lookup_entry reg iface s_composite) as [e|] eqn:Hl; try discriminate.
         destruct (e_conf e) as [[cs d]|] eqn:Hc; try discriminate.
-        destruct (entry_lazy lz fk e) eqn:Hz; try discriminate.
+        destruct (entry_lazy lz fk e || negb (field_ok uq s_nested (flat_fields cs))) eqn:Hz0; try discriminate.
+        apply orb_false_iff in Hz0. destruct Hz0 as [Hz _].
         destruct (find_field s_nested (flat_fields cs)) as [f|] eqn:Hf; try discriminate.
         destruct (f_schema f) as [| |el| | | |] eqn:Hfs; try discriminate.
         destruct (nth_error l i) as [x0|] eqn:Hi; try discriminate.
@@ -416,6 +420,7 @@ Variable orc : okind -> str -> option Z.
 Variable orcq : str -> option Q.
 Variable reg : list entry.
 Variable lz : bool.
+Variable uq : bool.
 Notation D := (decode env prop orc orcq reg lz).
 
 (* a node that writes a key its schema does not accept cannot be decoded *)
@@ -455,7 +460,7 @@ Qed.
 
 (* reach follows the written tree *)
 Lemma reach_value_at : forall p tags s cur v s' tags' cur' x,
-  reach reg lz p tags s cur v = Some (s', tags', cur', x) ->
+  reach reg lz uq p tags s cur v = Some (s', tags', cur', x) ->
   s' = SAny \/ value_at p v = Some x.
 Proof.
   induction p as [|st p IH]; intros tags s cur v s' tags' cur' x Hr.
@@ -463,7 +468,7 @@ Proof.
   - destruct st as [k|i]; cbn [reach] in Hr; cbn [value_at].
     + destruct s; try discriminate.
       * destruct v; try discriminate.
-        destruct (unique_key k kvs); try discriminate.
+        destruct (unique_key k kvs && field_ok uq k _); try discriminate.
         destruct (find_exact k kvs) as [[k0 x0]|]; try discriminate.
         destruct (nth_field k _ _) as [[f c0]|]; try discriminate. eapply IH; eauto.
       * destruct v; try discriminate.
@@ -475,7 +480,7 @@ Proof.
         destruct (plugin_entry reg iface kvs) as [e|]; try discriminate.
         destruct (find_exact k kvs) as [[k0 x0]|]; try discriminate.
         destruct (e_conf e) as [[cs d]|]; try discriminate.
-        destruct (entry_lazy lz fk e); try discriminate.
+        destruct (entry_lazy lz fk e || _); try discriminate.
         destruct (nth_field k _ _) as [[f c0]|]; try discriminate. eapply IH; eauto.
     + destruct s; try discriminate.
       * destruct v; try discriminate.
@@ -485,7 +490,7 @@ Proof.
         destruct (str_eqb iface i_schedule); try discriminate.
         destruct (lookup_entry reg iface s_composite) as [e|]; try discriminate.
         destruct (e_conf e) as [[cs d]|]; try discriminate.
-        destruct (entry_lazy lz fk e); try discriminate.
+        destruct (entry_lazy lz fk e || _); try discriminate.
         destruct (find_field s_nested (flat_fields cs)) as [f|]; try discriminate.
         destruct (f_schema f); try discriminate.
         destruct (nth_error l i) as [x0|]; try discriminate. eapply IH; eauto.
@@ -493,12 +498,12 @@ Qed.
 
 (* Unknown key: if the node at path p writes a key that is not accepted there, decoding fails. *)
 Theorem unknown_key_at : forall p s cur v acc kvs k y,
-  classify reg lz p s cur v = PStrict acc ->
+  classify reg lz uq p s cur v = PStrict acc ->
   value_at p v = Some (VMap kvs) -> In (k, y) kvs -> accepted_b k acc = false ->
   forall F c, notok (D F s c v).
 Proof.
   intros p s cur v acc kvs k y Hc Hv Hin Hacc. unfold classify in Hc.
-  destruct (reach reg lz p [] s cur v) as [[[[s' tags'] cur'] x]|] eqn:Hr; try discriminate.
+  destruct (reach reg lz uq p [] s cur v) as [[[[s' tags'] cur'] x]|] eqn:Hr; try discriminate.
   destruct (reach_value_at _ _ _ _ _ _ _ _ _ Hr) as [->|Hx].
   - cbn in Hc. discriminate.
   - rewrite Hv in Hx. inversion Hx; subst.
@@ -559,11 +564,12 @@ Variable orc : okind -> str -> option Z.
 Variable orcq : str -> option Q.
 Variable reg : list entry.
 Variable lz : bool.
+Variable uq : bool.
 Notation D := (decode env prop orc orcq reg lz).
 
 Theorem unknown_key_insert : forall p k y v0 v s cur acc,
   insert_key p k y v0 = Some v ->
-  classify reg lz p s cur v = PStrict acc -> accepted_b k acc = false ->
+  classify reg lz uq p s cur v = PStrict acc -> accepted_b k acc = false ->
   forall F c, notok (D F s c v).
 Proof.
   intros p k y v0 v s cur acc Hi Hc Hacc.
@@ -613,7 +619,7 @@ Proof.
 Qed.
 
 Theorem wrong_type_at : forall p s cur v s' tags d x,
-  reach reg lz p [] s cur v = Some (s', tags, d, x) ->
+  reach reg lz uq p [] s cur v = Some (s', tags, d, x) ->
   (wrong_type_b s' x = true \/ exists t, x = VStr t /\ wrong_type_str_b s' t = true) ->
   forall F c, notok (D F s c v).
 Proof.
@@ -623,7 +629,7 @@ Qed.
 
 (* ---------------------------------------------------------------- failing hooks (unresolved placeholders, unparsable durations, ...) *)
 Theorem hook_error_at : forall p s cur v s' tags d x e,
-  reach reg lz p [] s cur v = Some (s', tags, d, x) ->
+  reach reg lz uq p [] s cur v = Some (s', tags, d, x) ->
   x <> VNull -> hooks env prop orc orcq s' x = HErr e ->
   forall F c, notok (D F s c v).
 Proof.
@@ -728,6 +734,7 @@ Variable orc : okind -> str -> option Z.
 Variable orcq : str -> option Q.
 Variable reg : list entry.
 Variable lz : bool.
+Variable uq : bool.
 Notation D := (decode env prop orc orcq reg lz).
 
 Definition unwritten (F : nat) (k : str) (kvs : list (str * value)) : Prop :=
@@ -822,7 +829,7 @@ Qed.
 
 (* ... at any depth: a component anywhere in the tree whose written option violates its tag fails the whole decode *)
 Theorem range_at : forall p s cur v iface fk tags d0 kvs e nl fs d i f k' x,
-  reach reg lz p [] s cur v = Some (SPlugin iface fk, tags, d0, VMap kvs) ->
+  reach reg lz uq p [] s cur v = Some (SPlugin iface fk, tags, d0, VMap kvs) ->
   plugin_entry reg iface kvs = Some e -> e_conf e = Some (SStruct nl fs, d) -> entry_lazy lz fk e = false ->
   nth_error (flat_fields (SStruct nl fs)) i = Some f ->
   find_key (f_key f) (filter (fun kv => negb (is_type_key kv)) kvs) = Some (k', x) ->
@@ -925,6 +932,7 @@ Variable orc : okind -> str -> option Z.
 Variable orcq : str -> option Q.
 Variable reg : list entry.
 Variable lz : bool.
+Variable uq : bool.
 Notation D := (decode env prop orc orcq reg lz).
 
 Lemma resolve_env : forall name, resolve env prop s_env name = match env name with Some v => RVal v | None => RErr EPlaceholder end.
@@ -974,7 +982,7 @@ Proof.
 Qed.
 
 Theorem placeholder_unset_at : forall p s cur v s' tags d name,
-  reach reg lz p [] s cur v = Some (s', tags, d, VStr (ph_env name)) ->
+  reach reg lz uq p [] s cur v = Some (s', tags, d, VStr (ph_env name)) ->
   simple_name name = true -> env name = None ->
   forall F c, notok (D F s c v).
 Proof.
